@@ -591,7 +591,7 @@ pub fn write_replay(v: &Value, prop: &str, seed: u64, run: u64) -> String {
 }
 
 pub fn write_evidence(prop: &str, v: &Value) -> Result<(), String> {
-    let dir = format!("{}/evidence", verif_dir());
+    let dir = std::env::var("VERIF_EVIDENCE_DIR").unwrap_or_else(|_| format!("{}/evidence", verif_dir()));
     std::fs::create_dir_all(&dir).map_err(|e| e.to_string())?;
     let path = format!("{dir}/{prop}.json");
     let tmp = format!("{path}.tmp");
